@@ -269,6 +269,14 @@ func Gen(seed int64, index int, o GenOpts) *Case {
 	}
 	partMins := []time.Duration{50 * time.Millisecond, 100 * time.Millisecond, 200 * time.Millisecond, 333 * time.Millisecond, 500 * time.Millisecond}
 	c.Cfg.PartMin = partMins[pick(len(partMins))]
+	gopGrowth := 0
+	if (o.Profile == "regular" || o.Profile == "general") && (uint64(seed)*11+uint64(index)*5)%3 == 0 {
+		// key-frame placement that grows: one or two GOPs that are shorter than a part (each closes a
+		// segment, SegmentMinDuration being half of PartMinDuration here), then GOPs of several parts
+		gopGrowth = 1 + int((uint64(seed)+uint64(index))%2)
+		c.Cfg.SegMin = c.Cfg.PartMin / 2
+		c.Features["gop-growth"] = true
+	}
 	c.Cfg.SegMaxSize = 50 * 1024 * 1024
 	c.Cfg.Disk = chance(0.4)
 	if o.ForceDisk != nil {
@@ -303,6 +311,9 @@ func Gen(seed int64, index int, o GenOpts) *Case {
 		c.Features["late-start"] = true
 	}
 	segMinSec := c.Cfg.SegMin.Seconds()
+	if gopGrowth > 0 {
+		segMinSec = 3.5*c.Cfg.PartMin.Seconds() + 0.1 // the long GOPs decide how long the stream must be
+	}
 	nSegs := o.MinSegments
 	if nSegs == 0 {
 		nSegs = 4
@@ -585,6 +596,17 @@ func Gen(seed int64, index int, o GenOpts) *Case {
 				}
 				pos := n - midGOP
 				ra := pos >= 0 && pos%p.gop == 0
+				if gopGrowth > 0 && !sp.BFrames && pos >= 0 {
+					fsec := float64(p.frameTicks[0]) / rate
+					g1 := int(c.Cfg.SegMin.Seconds()/fsec) + 1 // frames of a short GOP: just over SegmentMinDuration
+					big := int(3.5*c.Cfg.PartMin.Seconds()/fsec) + 2
+					switch {
+					case pos <= gopGrowth*g1:
+						ra = pos%g1 == 0
+					default:
+						ra = (pos-gopGrowth*g1)%big == 0
+					}
+				}
 				if extraRA && pos > 0 && !sp.BFrames && rng.Intn(p.gop*3+1) == 0 {
 					ra = true
 				}
